@@ -124,6 +124,22 @@ theorem linkStats_found (l : FLink F) (cfg : Select.Cfg) (res : Classifier.Resul
   rw [a1, a2, a3, a4, a5, a6, a7, hw, hc]
   exact ⟨rfl, rfl, rfl, rfl, rfl, rfl, rfl⟩
 
+/-- The reported in-flight cap flag is computed from the REPORTED target: when that is the link's stamped target, it
+is exactly the admission gate `in_flight_cap_exceeded` Enhanced selection applies to the link. -/
+theorem linkStats_cap (l : FLink F) (cfg : Select.Cfg) (cls : Option Classifier.Result) (cc : Option (LinkCc.Ctl G))
+    (now : Nat) : ∀ e, e = linkStats l cfg cls cc now → e.ccTarget = l.ccTarget →
+    e.inFlightCapActive = Select.capExceeded l.toSLink := by
+  rintro e rfl ht
+  have h1 : (linkStats l cfg cls cc now).inFlightCapActive =
+      ((Select.inFlightCap (linkStats l cfg cls cc now).ccTarget l.rtt.rttMin).map
+        fun c => decide (l.core.inFlight > c)).getD false := rfl
+  have h2 : Select.capExceeded l.toSLink =
+      match Select.inFlightCap l.ccTarget l.rtt.rttMin with
+      | some cap => decide (l.core.inFlight > cap)
+      | none => false := rfl
+  rw [h1, h2, ht]
+  cases Select.inFlightCap l.ccTarget l.rtt.rttMin <;> rfl
+
 /-- Without a classification / a controller map (`None` arguments) the verdict fields are the neutral defaults. -/
 theorem Stats_link_no_inputs (l : FLink F) (cfg : Select.Cfg) (now : Nat) :
     ∀ e : LinkStatsM F G, e = linkStats l cfg none none now →
@@ -341,7 +357,9 @@ snapshot has an entry `e` at index `i`, and
 * `e.weak` is the flag the arm stamped on `l'`; with pairwise distinct conn ids it is the classifier's verdict for
   THIS link's readings, reported with ITS reason, share and threshold — never `"unknown"`;
 * the controller has an entry `st` for the link's conn id and `e` reports ITS state (never `"unknown"`), target and
-  loss latch — the very values the arm stamped on `l'` (`cc_backing_off` iff the reported state is `backing_off`). -/
+  loss latch — the very values the arm stamped on `l'` (`cc_backing_off` iff the reported state is `backing_off`);
+* `e.in_flight_cap_active` is exactly the admission gate `in_flight_cap_exceeded` Enhanced selection applies to `l'`
+  until the next tick, `e.base_score` is `l'.get_score()`. -/
 theorem Stats_arm_honest (v : Views F G) (hv : Faithful v) (s : Full F G) (now i : Nat) (l : FLink F)
     (hl : (afterHk s.sys now).1.links[i]? = some l) :
     ∃ l' e st, (hkArm v s now).1.sys.links[i]? = some l' ∧ (armSnapshot v s now).links[i]? = some e ∧
@@ -357,7 +375,8 @@ theorem Stats_arm_honest (v : Views F G) (hv : Faithful v) (s : Full F G) (now i
       (hkArm v s now).1.ctl.get l.core.connId = some st ∧
       e.ccState = some st.state ∧ e.ccTarget = st.target ∧ e.ccLossDegraded = st.lossDegraded ∧
       e.ccTarget = l'.ccTarget ∧ e.ccLossDegraded = l'.lossDegraded ∧
-      l'.ccBackingOff = decide (e.ccState = some .backingOff) := by
+      l'.ccBackingOff = decide (e.ccState = some .backingOff) ∧
+      e.inFlightCapActive = Select.capExceeded l'.toSLink ∧ e.baseScore = Select.score l'.toSLink := by
   obtain ⟨l', st, h1, h2, hst, ht, hb, hd⟩ := C16_arm_target_is_snapshot v hv s now i l hl
   have hl'eq : l' = FLink.stamped l (armStamp v s now l.core.connId) := by
     have := hkArm_get v s now i
@@ -388,7 +407,8 @@ theorem Stats_arm_honest (v : Views F G) (hv : Faithful v) (s : Full F G) (now i
   have hct : e.ccTarget = st.target := by rw [c6, hst']; rfl
   have hcd : e.ccLossDegraded = st.lossDegraded := by rw [c7, hst']; rfl
   refine ⟨l', e, st, h1, hget, hcore, haddr, o1, o2, o3, o4, o5, by rw [o6, hcto], hweak, fun hnd => ?_, hst,
-    hcs, hct, hcd, by rw [hct, ht], by rw [hcd, hd], ?_⟩
+    hcs, hct, hcd, by rw [hct, ht], by rw [hcd, hd], ?_,
+    linkStats_cap l' cfg' (some res) (some ctl') now e he (by rw [hct, ht]), by rw [he]; rfl⟩
   · have hf := armResult_find v hv s now l hnd hmem
     rw [hres, ← hid] at hf
     obtain ⟨f1, f2, f3, f4, -⟩ := linkStats_found l' cfg' res ctl' now _ st hf hst' e he
